@@ -6,5 +6,6 @@ CHECKERS = dict(C14_rt.CHECKERS)
 
 
 def run(ctx):
-    api.run_vcs(ctx, C14_vc.vcs(ctx), {"C14.bucket.iter_inv": "BucketBatchSampler.__iter__ for a sampler of symbolic length: per bucket consumed = full*size + pending with 0 <= pending < size; yielded batches have exactly the bucket's size; drop => only the incomplete batch is lost, else flushed once; len formula lemma"})
+    api.run_vcs(ctx, C14_vc.vcs(ctx), {"C14.bucket.iter_inv": "BucketBatchSampler.__iter__ for a sampler of symbolic length: per bucket consumed = full*size + pending with 0 <= pending < size; yielded batches have exactly the bucket's size; drop => only the incomplete batch is lost, else flushed once; len formula lemma",
+                                       "C14.P.len_is_number_of_batches": "real _get_batch_sampler_len source for a symbolic number of buckets: the reported length is the number of batches __iter__ yields (full batches per bucket, plus the flushed incomplete one when kept), asked for the sampler's current epoch"})
     C14_rt.run_bounded(ctx)
